@@ -315,6 +315,36 @@ print(json.dumps({'reproduced': bool(max(bad.values()) > 1e-4), 'relative_residu
     return out
 
 
+def _native_selfsimilar():
+    return _FAMILY + r"""
+def check(P):
+    xd0 = P['xd0']
+    with contextlib.redirect_stdout(io.StringIO()): s1 = IGEOS_Solver(**P)
+    xi = np.linspace(-2.2, 2.2, 45) + 0.0137
+    worst = {}
+    with contextlib.redirect_stdout(io.StringIO()): a = s1(xd0 + xi * 0.1, 0.1); b = s1(xd0 + xi * 0.16, 0.16)
+    for n in ('pressure', 'density', 'specific_internal_energy', 'velocity'):
+        worst[n] = float(np.max(np.abs(a[n] - b[n]) / (np.max(np.abs(a[n])) + 1e-12)))
+    return worst, str(s1.soln_type)
+res = None; tried = 0
+for P in family():
+    P = dict(P); P['xmin'] = P['xd0'] - 1.0; P['xmax'] = P['xd0'] + 1.0
+    try: w_, t1 = check(P)
+    except Exception: continue
+    tried += 1
+    if max(w_.values()) > 1e-3: res = {'reproduced': True, 'worst_relative_difference_between_t=0.1_and_t=0.16_on_the_same_rays': w_, 'problem': P, 'soln_type': t1, 'problems_tried': tried}; break
+print(json.dumps(res or {'reproduced': False, 'problems_tried': tried}))
+"""
+
+
+def _with_family_replay(ctx, o, body):
+    if o['status'] == 'refuted':
+        try: o['replay'] = _native(ctx, o.get('cex_raw') or {}, body)
+        except Exception as e: o['replay_error'] = str(e)[:200]
+    o.pop('cex_raw', None)
+    return o
+
+
 def ob_selfsimilar(ctx, pid):
     out = []
     xi = sp.Symbol('xi', real=True)
@@ -322,11 +352,11 @@ def ob_selfsimilar(ctx, pid):
         F = ctx.fields(k)
         for n in ('pressure', 'density', 'velocity', 'specific_internal_energy'):
             e = sp.diff(sp.sympify(F[n]).xreplace({x: xd0 + xi * t}), t)
-            out.append(_finish(ctx, core.prove_zero('%s/riemann/%s/region%d/selfsimilar:%s' % (pid, ctx.pat, k, n), e, ctx.hyps, goal_text='%s depends on (x-xd0)/t only' % n), None))
+            out.append(_with_family_replay(ctx, core.prove_zero('%s/riemann/%s/region%d/selfsimilar:%s' % (pid, ctx.pat, k, n), e, ctx.hyps, goal_text='%s depends on (x-xd0)/t only' % n), _native_selfsimilar()))
     ok = not (ctx.res.free_symbols & {x, t}) and not any(v.free_symbols & {x, t} for v in ctx.V)
     out.append(core.structural('%s/riemann/%s/selfsimilar:root_and_speeds_time_free' % (pid, ctx.pat), ok, goal='star-pressure equation and wave speeds do not depend on x or t; wave positions are xd0 + t*V'))
     for i, (X_, V_) in enumerate(zip(ctx.X, ctx.V)):
-        out.append(core.prove_zero('%s/riemann/%s/selfsimilar:X%d=xd0+t*V%d' % (pid, ctx.pat, i, i), X_ - (xd0 + t * V_), [], goal_text='wave %d sits at xd0 + t*V' % i))
+        out.append(_with_family_replay(ctx, core.prove_zero('%s/riemann/%s/selfsimilar:X%d=xd0+t*V%d' % (pid, ctx.pat, i, i), X_ - (xd0 + t * V_), [], goal_text='wave %d sits at xd0 + t*V' % i), _native_selfsimilar()))
     return out
 
 
